@@ -1,0 +1,30 @@
+//go:build verif
+
+// Verification hooks (add-only, compiled only with -tags verif).
+package worker
+
+import (
+	"context"
+
+	"github.com/sassoftware/relic/v8/config"
+	"github.com/sassoftware/relic/v8/internal/workerrpc"
+)
+
+// VerifNew builds a WorkerToken that talks to addr without spawning a worker process.
+func VerifNew(cfg *config.Config, tconf *config.TokenConfig, addr, cookie string) *WorkerToken {
+	ctx, cancel := context.WithCancel(context.Background())
+	return &WorkerToken{
+		config: cfg,
+		tconf:  tconf,
+		cookie: cookie,
+		addr:   addr,
+		ctx:    ctx,
+		cancel: cancel,
+		procs:  make(map[int]struct{}),
+	}
+}
+
+// VerifRequest exposes the retrying RPC entry point.
+func (t *WorkerToken) VerifRequest(ctx context.Context, path string, rr workerrpc.Request) (*workerrpc.Response, error) {
+	return t.request(ctx, path, rr)
+}
